@@ -18,6 +18,7 @@ RULE = (
     '; pass 6: exact Kronecker multitask and lazily constructed RFF families; checkpoints are not modified by loading them (second load of other values, third load back); used variational models reset to a checkpoint taken before their first call'
     "; pass 7: checkpoints of the un-whitened era (no `updated_strategy` key) loaded into strategies with their own jitter_val / under a jitter setting: q(f) equals the dense un-whitened posterior of the stored (m, S); re-saved checkpoint reproduces it"
     "; pass 8: means-only predictions as an observable and a directed means-only / in-place load history; deep copies and pickles OF the restored model (KISS-GP restored into other grid bounds)"
+    "; pass 9: SmoothedBoxPrior in the priors family, alternative constructor arguments that are not a pure rescaling"
 )
 REQUIRED = ["state_dict_roundtrip", "pickle_roundtrip", "deepcopy_roundtrip", "objective_roundtrip", "prior_params_carried", "legacy_checkpoint"]
 ASSUMPTIONS = ["pickle/deepcopy of an object are compared with the original at 1e-9 (caches may be recomputed), state_dict round trip at 1e-7"]
